@@ -615,12 +615,18 @@ class MetadataManager:
             return None
         if not text:
             return None
-        if text.isdigit():
-            # Legacy format: plain version number -> legacy filename
-            return int(text), f"v{text}.metadata.json"
-        m = _METADATA_FILE_RE.match(text)
-        if m:
-            return int(m.group(1)), text
+        try:
+            if text.isdigit():
+                # Legacy format: plain version number -> legacy filename
+                return int(text), f"v{text}.metadata.json"
+            m = _METADATA_FILE_RE.match(text)
+            if m:
+                return int(m.group(1)), text
+        except ValueError:
+            # str.isdigit() / \d accept characters that int() refuses (e.g. a
+            # superscript two) and digit strings beyond the interpreter's
+            # conversion limit: such a hint is unparseable, not fatal.
+            return None
         return None
 
     def _read_version_hint(self) -> Optional[Tuple[int, str]]:
